@@ -30,6 +30,7 @@ enum Op {
     Up(i32), Down(i32), PageUp(i32), PageDown(i32), HalfPageUp(i32), HalfPageDown(i32),
     SelectRow(usize), Append(Vec<(u32, u64, i32)>), Clear, Draw(usize),
     Toggle, ToggleAll, SelectAll, DeselectAll, SetRun(u32),
+    SelectRaw(u32, u32, u64), SelectMatched(u32, u32, u64),
 }
 
 fn small_k(r: &mut Rng) -> i32 {
@@ -73,7 +74,9 @@ fn gen_ops(r: &mut Rng, sel_heavy: bool) -> Vec<Op> {
         } else if k < 29 {
             Op::Draw(match r.below(8) { 0 => 1, 1 => 2, 7 => 30 + r.below(30) as usize, _ => 1 + r.below(12) as usize })
         } else if sel_heavy && k < 70 {
-            match r.below(10) { 0..=5 => Op::Toggle, 6 => Op::ToggleAll, 7 => Op::SelectAll, 8 => Op::DeselectAll, _ => Op::SetRun(r.below(3) as u32) }
+            match r.below(12) { 0..=5 => Op::Toggle, 6 => Op::ToggleAll, 7 => Op::SelectAll, 8 => Op::DeselectAll, 9 => Op::SetRun(r.below(3) as u32),
+                10 => { next_id += 1; Op::SelectRaw(r.below(3) as u32, 1 + r.below(6) as u32, 100000 + next_id) }
+                _ => { next_id += 1; Op::SelectMatched(r.below(3) as u32, 1 + r.below(6) as u32, 100000 + next_id) } }
         } else if k < 45 { Op::Up(small_k(r)) }
         else if k < 60 { Op::Down(small_k(r)) }
         else if k < 66 { Op::PageUp(r.range(-1, 3) as i32) }
@@ -85,6 +88,8 @@ fn gen_ops(r: &mut Rng, sel_heavy: bool) -> Vec<Op> {
         else if k < 94 { Op::ToggleAll }
         else if k < 96 { Op::SelectAll }
         else if k < 97 { Op::DeselectAll }
+        else if k < 98 { next_id += 1; Op::SelectRaw(r.below(3) as u32, 1 + r.below(6) as u32, 100000 + next_id) }
+        else if k < 99 { next_id += 1; Op::SelectMatched(r.below(3) as u32, 1 + r.below(6) as u32, 100000 + next_id) }
         else { Op::SetRun(r.below(3) as u32) };
         ops.push(op);
     }
@@ -104,6 +109,8 @@ fn coq_op(o: &Op) -> String {
         Op::Clear => "Clear".into(), Op::Draw(h) => format!("Draw {}", coq::n(*h as u64)),
         Op::Toggle => "Toggle".into(), Op::ToggleAll => "ToggleAll".into(), Op::SelectAll => "SelectAll".into(), Op::DeselectAll => "DeselectAll".into(),
         Op::SetRun(r) => format!("SetRun {}", coq::n(*r as u64)),
+        Op::SelectRaw(r, i, id) => format!("SelectRaw {} {} {}", coq::n(*r as u64), coq::n(*i as u64), coq::n(*id)),
+        Op::SelectMatched(r, i, id) => format!("SelectMatched {} {} {}", coq::n(*r as u64), coq::n(*i as u64), coq::n(*id)),
     }
 }
 fn coq_obs(o: &Obs) -> String {
@@ -172,6 +179,9 @@ fn main() {
                         Op::SelectAll => { s.handle(&Event::EvActSelectAll); }
                         Op::DeselectAll => { s.handle(&Event::EvActDeselectAll); }
                         Op::SetRun(_) => {}
+                        Op::SelectRaw(rn, i, id) => s.act_select_raw_item(*rn, *i, Arc::new(TestItem { id: *id, text: format!("raw {}", id) })),
+                        Op::SelectMatched(rn, i, id) => s.act_select_matched(*rn, MatchedItem {
+                            item: Arc::new(TestItem { id: *id, text: format!("appended {}", id) }), rank: [0, 0, 0, 0], matched_range: None, item_idx: *i }),
                     }
                 });
                 res.is_err()
@@ -249,6 +259,7 @@ fn main() {
                     Op::ToggleAll => if prev.n > 0 { for c in &listed { let key = (run_no, idx_of[c]); if want_sel.remove(&key).is_none() { want_sel.insert(key, *c); } } },
                     Op::SelectAll => if prev.n > 0 { for c in &listed { want_sel.insert((run_no, idx_of[c]), *c); } },
                     Op::DeselectAll => want_sel.clear(),
+                    Op::SelectRaw(rn, i, id) | Op::SelectMatched(rn, i, id) => { want_sel.insert((*rn, *i), *id); }
                     _ => {}
                 }
             }
